@@ -148,6 +148,21 @@ func VerifH_C11_Cycles() {
 		}
 	}
 	n := []string{"a", "b", "c"}
+	// references written by entity i carry the module's OWN prefix when own[i] is set
+	// (a reference "m:x" inside module m is the same reference as "x")
+	ref := func(i, j int) string { return n[j] }
+	if kind != 0 {
+		var own [3]bool
+		for i := 0; i < 3; i++ {
+			own[i] = vrt.Bool("ownprefix" + strconv.Itoa(i))
+		}
+		ref = func(i, j int) string {
+			if own[i] {
+				return "m:" + n[j]
+			}
+			return n[j]
+		}
+	}
 	texts := map[string]string{}
 	switch kind {
 	case 0:
@@ -172,7 +187,7 @@ func VerifH_C11_Cycles() {
 				t += "grouping " + n[i] + " { leaf l" + n[i] + " { type string; } "
 				for j := 0; j < 3; j++ {
 					if e[i][j] {
-						t += "uses " + n[j] + "; "
+						t += "uses " + ref(i, j) + "; "
 					}
 				}
 				t += "} "
@@ -180,7 +195,7 @@ func VerifH_C11_Cycles() {
 				base := "string"
 				for j := 0; j < 3; j++ {
 					if e[i][j] {
-						base = n[j]
+						base = ref(i, j)
 					}
 				}
 				t += "typedef " + n[i] + " { type " + base + "; } "
@@ -188,7 +203,7 @@ func VerifH_C11_Cycles() {
 				t += "identity " + n[i] + " { "
 				for j := 0; j < 3; j++ {
 					if e[i][j] {
-						t += "base " + n[j] + "; "
+						t += "base " + ref(i, j) + "; "
 					}
 				}
 				t += "} "
@@ -196,7 +211,7 @@ func VerifH_C11_Cycles() {
 				t += "feature " + n[i] + " { "
 				for j := 0; j < 3; j++ {
 					if e[i][j] {
-						t += "if-feature " + n[j] + "; "
+						t += "if-feature " + ref(i, j) + "; "
 					}
 				}
 				t += "} "
